@@ -10,16 +10,16 @@ FN == FM.nodes
 
 ElementKinds == {"TooLong", "TooShort", "BadCode", "BadClass", "BadDate", "BadTime", "MissingRequired", "NotUsedPresent",
                  "TooManySubElements"}
-SegmentKinds == {"TooManyElements", "SyntaxBroken", "UnknownSeg", "OutOfPlaceSeg", "MissingRequiredSeg", "SegOverMax", "LoopOverMax"}
+SegmentKinds == {"TooManyElements", "SyntaxBroken", "UnknownSeg", "OutOfPlaceSeg", "MissingRequiredSeg", "MissingRequiredLoop", "SegOverMax", "LoopOverMax"}
 
 (* the standard acknowledgement code(s) that match each fault kind (AK403 for elements, AK304 for segments) *)
 AllowedCodes(kind) ==
   CASE kind = "TooLong" -> {"5"} [] kind = "TooShort" -> {"4"} [] kind = "BadCode" -> {"7"} [] kind = "BadClass" -> {"6"}
     [] kind = "BadDate" -> {"8"} [] kind = "BadTime" -> {"9"} [] kind = "MissingRequired" -> {"1"} [] kind = "NotUsedPresent" -> {"10"}
     [] kind = "TooManyElements" -> {"3"} [] kind = "TooManySubElements" -> {"3"} [] kind = "SyntaxBroken" -> {"2", "10"}
-    [] kind = "UnknownSeg" -> {"1"} [] kind = "OutOfPlaceSeg" -> {"1", "2", "7"} [] kind = "MissingRequiredSeg" -> {"3"} [] kind = "SegOverMax" -> {"5"} [] kind = "LoopOverMax" -> {"4"}
+    [] kind = "UnknownSeg" -> {"1"} [] kind = "OutOfPlaceSeg" -> {"1", "2", "7"} [] kind = "MissingRequiredSeg" -> {"3"} [] kind = "MissingRequiredLoop" -> {"3"} [] kind = "SegOverMax" -> {"5"} [] kind = "LoopOverMax" -> {"4"}
     [] OTHER -> {}
-ErrLevel(kind) == IF kind \in {"UnknownSeg", "OutOfPlaceSeg", "MissingRequiredSeg", "SegOverMax", "LoopOverMax"} THEN "seg" ELSE "ele"
+ErrLevel(kind) == IF kind \in {"UnknownSeg", "OutOfPlaceSeg", "MissingRequiredSeg", "MissingRequiredLoop", "SegOverMax", "LoopOverMax"} THEN "seg" ELSE "ele"
 
 Numeric(t) == t = "R" \/ (Len(t) >= 1 /\ SubSeq(t, 1, 1) = "N")
 HasCodes(e) == Len(e.codes) > 0 \/ e.ext # ""
@@ -105,6 +105,9 @@ PlansAt(dd, ss) ==
               ELSE {[seg |-> ss, ele |-> 0, sub |-> CHOOSE x \in cand : \A y \in cand : y <= x, kind |-> "OutOfPlaceSeg", local |-> TRUE]})
      \cup (IF FN[n].usage = "R" /\ FN[FN[n].parent].kids[1] # n
            THEN {[seg |-> ss, ele |-> 0, sub |-> 0, kind |-> "MissingRequiredSeg", local |-> FALSE]} ELSE {})
+     \* a whole instance of a required loop removed (at its first segment; wrappers are no loops of the document)
+     \cup (IF FN[FN[n].parent].kids[1] = n /\ FN[FN[n].parent].usage = "R" /\ ~FN[FN[n].parent].wrapper
+           THEN {[seg |-> ss, ele |-> 0, sub |-> 0, kind |-> "MissingRequiredLoop", local |-> FALSE]} ELSE {})
      \cup (IF FN[n].rep > 0 /\ FN[n].rep <= 12 /\ FN[FN[n].parent].kids[1] # n
            THEN {[seg |-> ss, ele |-> 0, sub |-> 0, kind |-> "SegOverMax", local |-> FALSE]} ELSE {})
      \cup (IF FN[FN[n].parent].kids[1] = n /\ FN[FN[n].parent].rep > 0 /\ FN[FN[n].parent].rep <= 12 /\ ~FN[FN[n].parent].wrapper
